@@ -220,6 +220,32 @@ def bit_lemma_instances(op, x, y):
     return L
 
 
+def axioms_consistency_selftest(extra=()):
+    """The axiom set must not prove False, neither alone nor together with a few
+    ground witnesses that exercise every constructor (a derivable contradiction
+    would make every obligation vacuously 'proved')."""
+    s = z3.Solver()
+    s.set('timeout', 4000)
+    s.set('smt.mbqi', False)
+    for a in AXIOMS:
+        s.add(a)
+    x = z3.Const('w_x', Seq)
+    y = z3.Const('w_y', Seq)
+    big = s_single(z3.IntVal(300))
+    s.add(slen(x) == 3, isb(x), z3.Not(isb(y)), slen(y) == 2)
+    terms = [s_concat(x, y), s_concat(y, big), s_slice(x, z3.IntVal(1), z3.IntVal(2)), s_rep(z3.IntVal(7), z3.IntVal(4)),
+             s_upd(x, z3.IntVal(0), z3.IntVal(9)), s_xor(x, x), s_be(z3.IntVal(258), z3.IntVal(2))]
+    for t in terms:
+        s.add(slen(t) >= 0)
+        s.add(sat(t, 0) == sat(t, 0))
+    for e in extra:
+        s.add(e)
+    r = s.check()
+    if r == z3.unsat:
+        raise RuntimeError('axiom set is inconsistent (proves False)')
+    return True
+
+
 _BIT_LEMMAS_OK = [None]
 
 
